@@ -184,6 +184,15 @@ def run_check(prop, tier="quick", seed=0, replay=None):
             broken.append(f"pregen failed: {e}")
     try:
         binary = gobuild.build("harness")
+        # a private copy: a concurrently running check (another property, or the same machinery pointed at another tree)
+        # replaces the shared binary when its own build phase comes
+        import atexit
+        import shutil
+        priv = os.path.join(os.path.dirname(binary), "run", f"{os.path.basename(binary)}.{os.getpid()}")
+        os.makedirs(os.path.dirname(priv), exist_ok=True)
+        shutil.copy2(binary, priv)
+        atexit.register(lambda p=priv: os.path.exists(p) and os.remove(p))
+        binary = priv
         if gobuild.last_shim_notes:
             broken.append("export shims whose target identifier no longer exists in the tree (stubbed so that the harness still builds): "
                           + ", ".join(gobuild.last_shim_notes))
